@@ -40,9 +40,14 @@ func (self *Interpreter) callFunc(span errors.Span, val value.Value, args []ast.
 		}
 
 		self.callStackSize++
+		// the function sees the root scope of its module (globals, functions) and its own locals,
+		// not the locals of whoever calls it: a fresh scope list replaces the caller's for the duration of the call
+		scopesPrev := self.currentModule.scopes
+		self.currentModule.scopes = []map[string]*value.Value{scopesPrev[0]}
 		self.pushScope()
 		defer func() {
 			self.popScope()
+			self.currentModule.scopes = scopesPrev
 			self.callStackSize--
 			if previousModule != nil {
 				self.switchModule(*previousModule)
